@@ -87,7 +87,8 @@ def id_str(chars, i):
 
 
 def trn_build(rec, i):
-    tt = _tr.TOKEN_TABLES[i % len(_tr.TOKEN_TABLES)]
+    # (tables 3, 4: tokens with interior white space that is not the blank -- one token each, alternates or not)
+    tt = _tr.TRN_TOKEN_TABLES[i % len(_tr.TRN_TOKEN_TABLES)]
     if "ids" in rec:  # family trnid: the ids are part of the exported case
         ut = [id_str(x, i) for x in rec["ids"]]
     else:
@@ -248,20 +249,26 @@ def _finish_order(events):
 
 def check_pool(ctx, recs, schedules):
     data = _data()
-    tt = _tr.TOKEN_TABLES[0]
+    # token tables by turns: the plain one and the two whose tokens hold interior non-blank white space
+    tables = [_tr.TRN_TOKEN_TABLES[k] for k in (0, len(_tr.TOKEN_TABLES), len(_tr.TOKEN_TABLES) + 1)]
     maxn = max(k[0] for k in schedules)
     lines = pool_lines(recs, ctx.rng, 2 * maxn)
-    inv = _tr.inv_table(tt)
-    ran = 0
+    ran = turn = 0
     for (nchunks, W, mode) in sorted(schedules):
         if mode != "ordered":
             continue
         behaviours = schedules[(nchunks, W, mode)]
         for chunk in (1, 2):
             for n in ((nchunks,) if chunk == 1 else (2 * nchunks - 1, 2 * nchunks)):
+                tt = tables[turn % len(tables)]
+                inv = _tr.inv_table(tt)
+                turn += 1
                 _, text, expected = pool_file(ctx, lines, n, tt, "pool.trn")
                 # the single-process list must be the spec's list to begin with
-                single = [(u, _tr.trn_abs(tr, inv)) for u, tr in _quiet(data.read_trn, io.StringIO(text), False)]
+                try:
+                    single = [(u, _tr.trn_abs(tr, inv)) for u, tr in _quiet(data.read_trn, io.StringIO(text), False)]
+                except Exception as ex:  # (IOError of the reader, ValueError of the projection: foreign tokens)
+                    single = repr(ex)
                 if single != expected:
                     ctx.violation(dict(site="read_trn", kind="value"), "single-process read differs from the spec",
                                   dict(fam="pool", text=text, expected=expected, table=tt, key=[nchunks, W], pick=0,
@@ -277,16 +284,30 @@ def check_pool(ctx, recs, schedules):
                     ran += 1
     ctx.extra["pool_behaviours_replayed"] = ran
     # the path entry point (drops chunk_size: one chunk of <= 1000 lines; harmless, recorded)
-    path, text, expected = pool_file(ctx, lines, min(4, maxn), tt, "pool_path.trn")
-    plan = fakepool.Plan(schedules, 0)
-    with fakepool.installed(plan):
-        got = _quiet(data.read_trn, path, False, 2, 1)
-    if plan.calls and plan.calls[0]["chunksize"] != 1:
-        ctx.count("informational_read_trn_path_ignores_chunk_size")
-    if [(u, _tr.trn_abs(tr, inv)) for u, tr in got] != expected:
-        ctx.violation(dict(site="read_trn", kind="schedule_value", processes="many", via="path"),
-                      "read_trn(path, processes=2) differs from the single-process list",
-                      dict(fam="pool", text=text, expected=expected, table=tt, key=[1, 2], pick=0, chunk=1000, real=False))
+    for tt in tables:
+        inv = _tr.inv_table(tt)
+        path, text, expected = pool_file(ctx, lines, min(4, maxn), tt, "pool_path.trn")
+        plan = fakepool.Plan(schedules, 0)
+        case = dict(fam="pool", text=text, expected=expected, table=tt, key=[1, 2], pick=0, chunk=1000, real=False)
+        try:
+            with fakepool.installed(plan):
+                got = _quiet(data.read_trn, path, False, 2, 1)
+        except fakepool.FakePoolError as ex:
+            raise MachineryError("FakePool: %s" % ex)
+        except Exception as ex:
+            ctx.violation(dict(site="read_trn", kind="exception", processes="many", via="path"),
+                          "read_trn(path, processes=2): %r" % (ex,), case)
+            continue
+        try:
+            got_abs = [(u, _tr.trn_abs(tr, inv)) for u, tr in got]
+        except ValueError as ex:
+            got_abs = str(ex)
+        if plan.calls and plan.calls[0]["chunksize"] != 1:
+            ctx.count("informational_read_trn_path_ignores_chunk_size")
+        if got_abs != expected:
+            ctx.violation(dict(site="read_trn", kind="schedule_value", processes="many", via="path"),
+                          "read_trn(path, processes=2) differs from the single-process list", case)
+    tt = tables[1]
     if ctx.quick:
         return
     # thorough: sampled behaviours of a 20-line file, and a few real pools
@@ -776,7 +797,9 @@ def selftest(ctx, recs, schedules):
 
 def run(ctx):
     ctx.rule = ("every case exported by TLC from Transcripts.tla (trn collections: <= 3 leaves, alternates nested "
-                "<= 2, <= 2-3 utterances; ctm collections x every wave/channel map, and the same collections in units of 2^-16 s, "
+                "<= 2, <= 2-3 utterances, plus the listed transcripts of TrnExtraNested: 3- and 4-way alternates at depth 1-3 "
+                "whose middle branch is empty / one token / two tokens / an alternate; tokens are mapped by turns to plain "
+                "strings and to strings with interior no-break space / tab / U+3000 / U+2009; ctm collections x every wave/channel map, and the same collections in units of 2^-16 s, "
                 "1/8 s + 2^-48 s, 10^-7 s and 10^16 s whose fields print in scientific notation; TextGrid transcripts on a grid "
                 "crossing 10 s x precisions x point_tier options x tier name x start/end; transcripts x "
                 "token-map/unk/frame-shift/skip settings) is written with the real writer through a file and a "
@@ -787,7 +810,9 @@ def run(ctx):
                 "chronological; trn ids with padding; token round trips with a "
                 "token map or a frame shift; pool behaviours whose completion order is not the task order")
     ctx.assumptions += [
-        "tokens are free of the formats' delimiters (space, braces, slash, parentheses, ';;', '\"'); utterance ids "
+        "tokens are free of the formats' delimiters (space, braces, slash, parentheses, ';;', '\"') and neither begin nor "
+        "end with white space; trn tokens may hold white space other than the blank inside (not ctm / TextGrid tokens: those "
+        "formats split fields on any white space); utterance ids "
         "are free of parentheses and newlines (spaces and tabs inside and around trn ids are in the universe)",
         "TextGrid times avoid exact ties at the print precision (the nearest multiple is then unique); entries "
         "that print identically are compared as a multiset",
@@ -837,7 +862,15 @@ def replay(ctx, case):
         tt = {int(k): v for k, v in case["table"].items()}
         exp = [(u, tr) for u, tr in case["expected"]]
         key = tuple(case["key"])
-        if case.get("real"):
+        if case.get("single"):  # the single-process read of a pool file against the spec's list
+            try:
+                got = [(u, _tr.trn_abs(tr, _tr.inv_table(tt)))
+                       for u, tr in _quiet(_data().read_trn, io.StringIO(case["text"]), False)]
+            except Exception as ex:
+                got = repr(ex)
+            if got != [(u, tr) for u, tr in exp]:
+                ctx.violation(dict(site="read_trn", kind="value"), "single-process read differs from the spec", case)
+        elif case.get("real"):
             check_pool_case(ctx, case["text"], exp, tt, None, key, 0, case["chunk"], real=True)
         else:
             sch = {(key[0], key[1], "ordered"): [case["events_ordered"]],
